@@ -7,7 +7,7 @@ ID = "C09"
 LEVEL = "exploration"
 RULE = ("ALL connected multigraphs (<=2 parallel links per pair, canonical under junction relabelling) on 1-2 sources + <=3 "
         "(quick) / <=4 (thorough) junctions with <=5 / <=6 links x EVERY subset of initially closed links x schedules of "
-        "<=1 (quick; <=2 on graphs with <=3 links) / <=2 (thorough, small graphs) time controls toggling a link; variants with link 0 as head pump / TCV, and (graphs with <= 4 links; thorough <= 5) under the pressure-dependent demand model. "
+        "<=1 (quick; <=2 on graphs with <=3 links) / <=2 (thorough, small graphs) time controls toggling a link; variants with link 0 as head pump / TCV, run + reset + second run (judged) on the same simulator object / a new one (graphs with <= 4 links), and (graphs with <= 4 links; thorough <= 5) under the pressure-dependent demand model. "
         "oracle: reference reachability over reported statuses: isolated => demand=pressure=head=0 and zero flow on its "
         "links; connected => full requested demand and the run solves; no-tank graphs: every step equals the steady state "
         "of the same closed set. non-trivial: at least one junction isolated at some step and one connected at some step")
@@ -58,6 +58,15 @@ def cases(tier):
                             scheds += [((a, 3600), (b, 3600)) for a in range(L) for b in range(a + 1, L)]      # both at one instant
                         for ev in scheds:
                             out.append(graph_spec(nf, k, edges, closed, ev, "pipe"))
+                        if L <= 4 or (tier == "thorough" and small):
+                            # the model is simulated, reset and simulated AGAIN on the same WNTRSimulator object / a new one:
+                            # the second run is judged (every toggled link ends the first run in another state than it starts the second)
+                            for li in range(L):
+                                for mode in ("same-sim", "new-sim"):
+                                    c = graph_spec(nf, k, edges, closed, ((li, 3600),), "pipe")
+                                    c["rerun"] = mode
+                                    c["id"]["rerun"] = mode
+                                    out.append(c)
                         if (k <= 3 and L <= 4) or (tier == "thorough" and small):
                             # the same closures under the pressure-dependent demand model
                             for ev in [()] + [((li, 3600),) for li in range(L)]:
@@ -72,7 +81,27 @@ def cases(tier):
 
 
 def run_case(s):
-    r = simulate(s)
+    if s.get("rerun"):
+        import wntr, warnings
+        wn = build(s)
+        sim = wntr.sim.WNTRSimulator(wn)
+        with warnings.catch_warnings():
+            warnings.simplefilter("ignore")
+            first = sim.run_sim()
+        wn.reset_initial_values()
+        if first.error_code is not None:
+            return {"viol": [], "nontrivial": False, "outcome": "first-run-not-converged", "counts": {"not_converged": 1}}
+        if s["rerun"] == "same-sim":
+            with warnings.catch_warnings(record=True) as w:
+                warnings.simplefilter("always")
+                import scipy.sparse.linalg as spl
+                warnings.filterwarnings("error", "Matrix is exactly singular", spl.MatrixRankWarning)
+                r = wrap(sim.run_sim(), wn, [])
+            r.warnings = [str(x.message) for x in w]
+        else:
+            r = simulate(s, wn=wn)
+    else:
+        r = simulate(s)
     viol, counts = [], {}
     if r.error:
         return {"viol": [{"key": "not-solved", "what": "the simulator did not solve a network whose connected part is feasible: %s" % r.warnings[:1]}],
